@@ -69,7 +69,7 @@ void hb_edge(Thread* from, Thread* to) {
 // word, and a release store to one byte must not wipe out the clock another
 // thread published through a neighbouring byte. The map is keyed by the aligned
 // 8-byte unit; each unit holds up to 8 lazily allocated per-byte clocks.
-struct Unit { VC* b[8]; };
+struct Unit { VC* b[8]; int16_t own[8]; };  // own: thread of the last release *store* (head of the release sequence)
 typedef std::unordered_map<uintptr_t, Unit, std::hash<uintptr_t>, std::equal_to<uintptr_t>,
                            MA<std::pair<const uintptr_t, Unit>>> UnitMap;
 static UnitMap* g_units;
@@ -97,18 +97,26 @@ static inline void loc_acquire(Thread* me, uintptr_t addr, size_t size, bool acq
   }
 }
 // plain store semantics: replaces the clock of every byte written
-static inline void loc_store(uintptr_t addr, size_t size, bool release, const VC* vc) {
+// G.relseq17: C++11-17 release sequences — a later store of the thread that
+// performed the heading release store continues the sequence (the clock of the
+// head stays readable through it). Off: C++20 rule, any non-RMW store ends it.
+static inline void loc_store(uintptr_t addr, size_t size, bool release, const VC* vc, int tid) {
   if (!release && (!g_units || g_units->empty())) return;
   for (uintptr_t x = addr; x < addr + size; x++) {
     uintptr_t u = x & ~(uintptr_t)7;
     if (release) {
       Unit& un = units()[u];
       VC*& v = un.b[x - u];
+      if (v && G.relseq17 && un.own[x - u] == (int16_t)tid) { v->join(*vc); continue; }  // same thread: both heads stay readable
       if (!v) v = (VC*)malloc(sizeof(VC));
       *v = *vc;
+      un.own[x - u] = (int16_t)tid;
     } else {
       auto it = g_units->find(u);
-      if (it != g_units->end() && it->second.b[x - u]) { free(it->second.b[x - u]); it->second.b[x - u] = nullptr; }
+      if (it != g_units->end() && it->second.b[x - u]) {
+        if (G.relseq17 && it->second.own[x - u] == (int16_t)tid) continue;
+        free(it->second.b[x - u]); it->second.b[x - u] = nullptr;
+      }
     }
   }
 }
@@ -119,7 +127,7 @@ static inline void loc_rmw(uintptr_t addr, size_t size, const VC* add) {
     uintptr_t u = x & ~(uintptr_t)7;
     Unit& un = units()[u];
     VC*& v = un.b[x - u];
-    if (!v) { v = (VC*)malloc(sizeof(VC)); *v = *add; } else v->join(*add);
+    if (!v) { v = (VC*)malloc(sizeof(VC)); *v = *add; un.own[x - u] = -1; } else v->join(*add);
   }
 }
 
@@ -336,10 +344,10 @@ static inline uint64_t read_mem(uintptr_t addr, size_t size) {
   }
 }
 
-static void commit(uintptr_t addr, size_t size, uint64_t val, bool release, const VC* vc) {
+static void commit(uintptr_t addr, size_t size, uint64_t val, bool release, const VC* vc, int tid) {
   uint64_t oldv = g_watch ? read_mem(addr, size) : 0;
   write_mem(addr, size, val);
-  loc_store(addr, size, release, vc);
+  loc_store(addr, size, release, vc, tid);
   G.idle_jumps = 0;
   fire_watch(addr, size, oldv, val);
 }
@@ -349,7 +357,7 @@ void sb_commit_one(Thread* t, size_t idx) {
   SbEntry e = t->sb[idx];
   t->sb.erase(t->sb.begin() + (long)idx);
   if (t->sb.empty()) G.sb_nonempty--;
-  commit(e.addr, e.size, e.val, e.release, &e.vc);
+  commit(e.addr, e.size, e.val, e.release, &e.vc, t->id);
 }
 void sb_drain(Thread* t) {
   while (!t->sb.empty()) sb_commit_one(t, 0);
@@ -415,7 +423,7 @@ static inline void a_store(volatile T* a, T v, int mo) {
     me->sb.push_back(e);
   } else {
     sb_drain(me);
-    commit(addr, sizeof(T), (uint64_t)v, carries, vc);
+    commit(addr, sizeof(T), (uint64_t)v, carries, vc, me->id);
   }
   if (rel) me->vc.c[me->id]++;
   me->idle_pts = 0;
